@@ -492,6 +492,18 @@ def run(ctx, facet, quick, thorough, with_corr=True):
             # retarget_symbol_uses in the same context: the uses of one code label are pointed at another code label
             # or an external symbol (the edited listing then names the new symbol)
             emodify.add_retargets(ctx.rng, case)
+        if facet == "C03" and k % 9 == 4:
+            # a patch that puts part of its code into another executable section (a cold path): the code there ends in
+            # a jump back, a return, a call (refused by the code: nothing follows the call) or nothing at all
+            code = [i for i, d in enumerate(case["text"]) if d["kind"] == "code" and d["insns"]]
+            if code:
+                i = ctx.rng.choice(code)
+                off = ctx.rng.choice(emodify.block_layout(case["text"][i])[:-1])
+                if not any(e["block"] == i and (e["off"] == off or e["off"] < off < e["off"] + e.get("len", 0)) for e in case["edits"]):
+                    end = ctx.rng.choice(["jmp .Lback", "jmp .Lback", "ret", "call ext_a", "nop", "jne .Lback"])
+                    case["edits"].append({"op": "insert", "block": i, "off": off, "asm":
+                                          '.section .text.unlikely,"ax",@progbits\n.Lcold:\nmovl $%d, %%eax\n%s\n.text\ntestl %%eax, %%eax\nje .Lcold\n.Lback:\nnop'
+                                          % (emodify.fresh_imm(ctx.rng), end)})
         camp.add(case)
     camp.flush()
 
